@@ -334,6 +334,18 @@ class Ref:
         if key is not None:
             k.aead = AESGCM(key) if kind == "aesgcm" else ChaCha20Poly1305(key)
         self.k = k
+        self._ecb = None
+        if hp is not None and kind == "aesgcm":
+            # AES-ECB is stateless per block: one encryptor serves every sample (same function as
+            # refcrypto.Keys.hp_mask, without building a Cipher object per call)
+            from cryptography.hazmat.primitives.ciphers import Cipher, algorithms, modes
+
+            self._ecb = Cipher(algorithms.AES(hp), modes.ECB()).encryptor()
+
+    def mask(self, sample):
+        if self._ecb is not None and len(sample) == 16:
+            return self._ecb.update(sample)[:5]
+        return self.k.hp_mask(sample)
 
     def seal(self, data, ad, pn):
         return self.k.seal(pn & 0xFFFFFFFFFFFFFFFF, ad, data)
@@ -351,7 +363,7 @@ class Ref:
         pnl = (header[0] & 3) + 1
         off = len(header) - pnl
         sample = payload[4 - pnl : 4 - pnl + 16]
-        mask = self.k.hp_mask(sample)
+        mask = self.mask(sample)
         pkt = bytearray(header + payload)
         pkt[0] ^= mask[0] & (0x0F if pkt[0] & 0x80 else 0x1F)
         for i in range(pnl):
@@ -360,10 +372,13 @@ class Ref:
 
     def remove(self, packet, off):
         """(plain header, truncated pn)"""
-        from . import refcrypto as rc
-
-        _first, _pnl, pn, header = rc.unprotect_header(self.k, packet, off)
-        return header, pn
+        if off + 4 + 16 > len(packet):
+            raise ValueError("packet too short for sample")
+        mask = self.mask(packet[off + 4 : off + 20])
+        first = packet[0] ^ (mask[0] & (0x0F if packet[0] & 0x80 else 0x1F))
+        pnl = (first & 3) + 1
+        pn_bytes = bytes(packet[off + i] ^ mask[1 + i] for i in range(pnl))
+        return bytes([first]) + packet[1:off] + pn_bytes, int.from_bytes(pn_bytes, "big")
 
 
 def ref_for_aead(cipher_name, key, iv):
